@@ -63,6 +63,9 @@ type Case struct {
 	Seed  []bool    `json:"seed"`  // document k is created and committed before the interleaving starts
 	Index string    `json:"index"` // "", "age", "tag", "utag" (unique on tag): created before the interleaving starts
 	Steps []Step    `json:"steps"`
+	// Avoid: stay clear of the triggers of the listed (known) findings so that states behind them
+	// stay reachable; drawn true for about half of the cases.
+	Avoid bool `json:"avoid,omitempty"`
 }
 
 func drawOp(t *rapid.T, actor, ndocs int, label string) Step {
@@ -137,6 +140,7 @@ func drawOp(t *rapid.T, actor, ndocs int, label string) Step {
 
 func drawCase(t *rapid.T) Case {
 	var c Case
+	c.Avoid = rapid.Bool().Draw(t, "avoid")
 	nd := rapid.IntRange(1, 4).Draw(t, "ndocs")
 	for k := 0; k < nd; k++ {
 		c.Docs = append(c.Docs, DocInit{
